@@ -476,8 +476,12 @@ func c41RunHist(t testing.TB, sys ActorSystem, h c41Hist) (res c41Result) {
 			msg = &pruneTick{}
 		case "digest":
 			msg = reps[m.Src].r.buildDigest()
-		case "deliver":
-			msg = outs[m.Out]
+		case "deliver": // index taken modulo the number of messages captured so far
+			if len(outs) == 0 {
+				msg = &internalpb.CRDTReadRequest{}
+			} else {
+				msg = outs[m.Out%len(outs)]
+			}
 		case "tomb":
 			at = lo - m.Age
 			key := badKey(m.Kind, m.K)
@@ -516,12 +520,18 @@ func c41RunHist(t testing.TB, sys ActorSystem, h c41Hist) (res c41Result) {
 				b.OriginDc = &internalpb.DataCenter{Name: "other-dc"}
 			}
 			for _, i := range m.Deltas {
-				if d, ok := outs[i].(*internalpb.CRDTDelta); ok {
+				if len(outs) == 0 {
+					break
+				}
+				if d, ok := outs[i%len(outs)].(*internalpb.CRDTDelta); ok {
 					b.Deltas = append(b.Deltas, d)
 				}
 			}
 			for _, i := range m.Tombs {
-				if d, ok := outs[i].(*internalpb.CRDTTombstone); ok {
+				if len(outs) == 0 {
+					break
+				}
+				if d, ok := outs[i%len(outs)].(*internalpb.CRDTTombstone); ok {
 					b.Tombstones = append(b.Tombstones, d)
 				}
 			}
